@@ -17,7 +17,7 @@ PID = "C18"
 KEYS = "ABCDEFGHIJ"
 FUNCS = {1: "normalized", 2: "sorted", 3: "n_keys", 4: "minimum_n_keys", 5: "at_age", 6: "at_lock_time",
          7: "entails", 8: "check_timelocks", 9: "lift"}
-KNOWN_KEYS = {34: "minkeys-duplicate-keys", 39: "lift-refuses-unsat-branch"}
+KNOWN_KEYS = {34: "minkeys-duplicate-keys"}
 
 
 # ------------------------------------------------------------------ token <-> text
